@@ -145,6 +145,16 @@ func addMisc(e *Engine, m map[string]intrinsic) {
 		return tupleOf(p.normalizeJSON(args[0]), iface{})
 	}
 	m["os.Getenv"] = func(p *Path, fr *frame, args []value) value { return "" }
+	// prototext.Format / Message.String(): a structural rendering of the message's
+	// exported fields (injective on the content, not byte-identical to prototext;
+	// callers use it for map keys and messages only)
+	protoText := func(p *Path, fr *frame, args []value) value {
+		return p.structText(args[0], 0)
+	}
+	m["google.golang.org/protobuf/encoding/prototext.Format"] = protoText
+	m["(google.golang.org/protobuf/internal/impl.Export).MessageStringOf"] = func(p *Path, fr *frame, args []value) value {
+		return p.structText(args[1], 0)
+	}
 	// util.UniqueErrors de-duplicates errors by their message text; messages built from
 	// symbolic values are approximations, so the de-duplication is skipped (the set of
 	// errors is returned as is: emptiness, which is what callers test, is preserved).
@@ -279,4 +289,120 @@ func (p *Path) callSSABody(caller *frame, fn *ssaFunction, args []value) value {
 	p.bypass = name
 	defer func() { p.bypass = "" }()
 	return p.callSSA(caller, 0, fn, args, nil)
+}
+
+// structText renders a value structurally (strings quoted with length prefix so that
+// the rendering is injective), following pointers, skipping unexported struct fields.
+func (p *Path) structText(v value, depth int) value {
+	if depth > 12 {
+		return "…"
+	}
+	switch x := v.(type) {
+	case nil:
+		return "nil"
+	case iface:
+		if x.t == nil {
+			return "nil"
+		}
+		return p.structTextTyped(x.t, x.v, depth)
+	}
+	return p.structTextTyped(nil, v, depth)
+}
+
+func (p *Path) structTextTyped(t types.Type, v value, depth int) value {
+	var out value = ""
+	add := func(s value) { out = strConcat(out, s) }
+	switch x := v.(type) {
+	case *Term:
+		if x.IsConst() {
+			return fmt.Sprintf("%d", x.c)
+		}
+		if x.sort.K == SBV {
+			return p.formatIntSym(x, false)
+		}
+		return &SymStr{b: make([]*Term, 4), taint: "structural text of a symbolic bool/float"}
+	case string:
+		return fmt.Sprintf("%d:%q", len(x), x)
+	case *SymStr:
+		add(fmt.Sprintf("%d:\"", len(x.b)))
+		add(x)
+		add("\"")
+		return out
+	case *value:
+		if x == nil {
+			return "nil"
+		}
+		var et types.Type
+		if t != nil {
+			if pt, ok := t.Underlying().(*types.Pointer); ok {
+				et = pt.Elem()
+			}
+		}
+		return p.structTextTyped(et, *x, depth+1)
+	case structure:
+		var st *types.Struct
+		if t != nil {
+			st, _ = t.Underlying().(*types.Struct)
+		}
+		add("{")
+		for i, f := range x {
+			if st != nil && !st.Field(i).Exported() {
+				continue
+			}
+			var ft types.Type
+			if st != nil {
+				ft = st.Field(i).Type()
+				add(st.Field(i).Name() + ":")
+			}
+			add(p.structTextTyped(ft, f, depth+1))
+			add(" ")
+		}
+		add("}")
+		return out
+	case []value:
+		var et types.Type
+		if t != nil {
+			if s, ok := t.Underlying().(*types.Slice); ok {
+				et = s.Elem()
+			}
+		}
+		add("[")
+		for _, e := range x {
+			add(p.structTextTyped(et, e, depth+1))
+			add(" ")
+		}
+		add("]")
+		return out
+	case *Map:
+		if x == nil {
+			return "map[]"
+		}
+		// keys in sorted order of their own text when concrete; insertion order otherwise
+		add("map[")
+		ents := append([]*mapEntry{}, x.entries...)
+		allConc := true
+		for _, e := range ents {
+			if !e.conc {
+				allConc = false
+			}
+		}
+		if allConc {
+			for i := 1; i < len(ents); i++ {
+				for j := i; j > 0 && ents[j].ck < ents[j-1].ck; j-- {
+					ents[j], ents[j-1] = ents[j-1], ents[j]
+				}
+			}
+		}
+		for _, e := range ents {
+			add(p.structTextTyped(nil, e.k, depth+1))
+			add("=")
+			add(p.structTextTyped(nil, e.v, depth+1))
+			add(" ")
+		}
+		add("]")
+		return out
+	case iface:
+		return p.structText(x, depth+1)
+	}
+	return fmt.Sprintf("<%T>", v)
 }
